@@ -123,6 +123,10 @@ class Hooks:
         """memory cell whose fact survives calls (declared input of a decision cell)"""
         return False
 
+    def load_value(self, ptrexpr, E):
+        """value of a load from `ptrexpr` fixed by the decision cell (consulted when no memory fact is known)"""
+        return None
+
     def init_facts(self, fn):
         return {}
 
@@ -230,7 +234,11 @@ class Eval:
                 e = self.flow.expr(ref)
                 if e[0] == "c" and isinstance(e[1], int):
                     return ("in", frozenset([e[1]]))
-            return self.facts.get(("M", self.flow.expr(d["ptr"])))
+            pe = self.flow.expr(d["ptr"])
+            v = self.facts.get(("M", pe))
+            if v is None:
+                v = self.flow.hooks.load_value(pe, self)
+            return v
         if op in ("call", "invoke"):
             return self.flow.hooks.call_value(i, self) or None
         if op == "alloca" or op == "getelementptr":
